@@ -73,7 +73,8 @@ def sink_regex(pat):
 # generated application parts: they only record that they ran
 # ---------------------------------------------------------------------------------------------
 
-def make_resource(rid, plain, sfxm, asgi, log):
+def make_resource(rid, plain, sfxm, asgi, log, act=None):
+    """act(req, resp), if given, is what the generated user code does besides recording itself (used by C20)"""
     ns = {}
     for methods, suffix in ((plain, ''), (sfxm, 's')):
         for m in methods:
@@ -85,20 +86,28 @@ def make_resource(rid, plain, sfxm, asgi, log):
                 else:
                     async def responder(self, req, resp, _m=m, _s=suffix, **kw):
                         log.append(('res', rid, _m, _s, dict(kw)))
+                        if act:
+                            act(req, resp)
             else:
                 def responder(self, req, resp, _m=m, _s=suffix, **kw):
                     log.append(('res', rid, _m, _s, dict(kw)))
+                    if act:
+                        act(req, resp)
             ns[name] = responder
     return type('Res%d' % rid, (object,), ns)()
 
 
-def make_sink(sid, asgi, log):
+def make_sink(sid, asgi, log, act=None):
     if asgi:
         async def sink(req, resp, **kw):
             log.append(('sink', sid, '', '', dict(kw)))
+            if act:
+                act(req, resp)
     else:
         def sink(req, resp, **kw):
             log.append(('sink', sid, '', '', dict(kw)))
+            if act:
+                act(req, resp)
     return sink
 
 
@@ -150,24 +159,25 @@ class StaticDirs:
 class Built:
     """A real app assembled through the public API from a list of spec-level assembly calls."""
 
-    def __init__(self, asgi, sbs, dirs):
+    def __init__(self, asgi, sbs, dirs, act=None, **app_kw):
         import falcon
         import falcon.asgi
         self.asgi = asgi
         self.log = []
         self.dirs = dirs
+        self.act = act
         self.statics = []          # (id, prefix text)
-        self.app = (falcon.asgi.App if asgi else falcon.App)(sink_before_static_route=bool(sbs))
+        self.app = (falcon.asgi.App if asgi else falcon.App)(sink_before_static_route=bool(sbs), **app_kw)
 
     def call(self, c):
         """perform one assembly call; returns (accepted, exception name)"""
         try:
             if c['op'] == 'route':
-                res = make_resource(c['id'], c['plain'], c['sfxm'], self.asgi, self.log)
+                res = make_resource(c['id'], c['plain'], c['sfxm'], self.asgi, self.log, self.act)
                 kw = {'suffix': c['sfx']} if c['sfx'] else {}
                 self.app.add_route(template_str(c['tmpl']), res, **kw)
             elif c['op'] == 'sink':
-                self.app.add_sink(make_sink(c['id'], self.asgi, self.log), sink_regex(c['pat']))
+                self.app.add_sink(make_sink(c['id'], self.asgi, self.log, self.act), sink_regex(c['pat']))
             elif c['op'] == 'static':
                 kw = {'fallback_filename': '__fallback'} if c['fb'] else {}
                 self.app.add_static_route(text(c['prefix']), self.dirs.dir(c['id']), **kw)
@@ -217,23 +227,31 @@ def observe(res, log):
     return o
 
 
-def run_requests(built, reqs):
-    """send (method, path) requests through the raw driver of the app's stack; returns observations"""
+def run_requests(built, reqs, headers=None, project=None):
+    """send (method, path) requests through the raw driver of the app's stack; returns observations.
+    headers: optional list (one header list per request); project: optional extra projection of the Result"""
     out = []
+
+    def done(res):
+        o = observe(res, list(built.log))
+        if project:
+            o['extra'] = project(res)
+        out.append(o)
+
     if not built.asgi:
-        for m, p in reqs:
+        for i, (m, p) in enumerate(reqs):
             built.prepare(p)
             del built.log[:]
-            res = drivers.wsgi_call(built.app, drivers.Req(method=m, target=p.encode('latin-1')))
-            out.append(observe(res, list(built.log)))
+            done(drivers.wsgi_call(built.app, drivers.Req(method=m, target=p.encode('latin-1'),
+                                                          headers=headers[i] if headers else ())))
         return out
 
     async def go():
-        for m, p in reqs:
+        for i, (m, p) in enumerate(reqs):
             built.prepare(p)
             del built.log[:]
-            res = await drivers.asgi_call_async(built.app, drivers.Req(method=m, target=p.encode('latin-1')))
-            out.append(observe(res, list(built.log)))
+            done(await drivers.asgi_call_async(built.app, drivers.Req(method=m, target=p.encode('latin-1'),
+                                                                      headers=headers[i] if headers else ())))
     drivers.run_async(go())
     return out
 
